@@ -47,3 +47,10 @@ Print Assumptions c06_gram_by_batches.
 From SymfcG Require Import ShapesSolvers.
 Theorem c06_recorded_sources2_in_force : ShapesSolvers_as_recorded = true.
 Proof. repeat split; reflexivity. Qed.
+
+(** What the modules on this property's path consist of besides the function bodies is the recorded one: every signature with its
+    defaults and keyword-only arguments, decorators, class bases, method lists and module-level statements (imports, constants) --
+    regenerated on every run. *)
+From SymfcG Require Import SkelSolvers.
+Theorem c06_module_skeletons_in_force : SkelSolvers_as_recorded = true.
+Proof. repeat split; reflexivity. Qed.
